@@ -9,6 +9,7 @@ use std::collections::{BTreeMap, HashMap};
 use std::io::Write;
 
 mod d_cf;
+mod d_embed;
 mod d_entry;
 mod d_pipe;
 mod d_rx;
@@ -121,6 +122,7 @@ fn main() {
     "scan" => d_scan::run(&args),
     "cf" => d_cf::run(&args),
     "rx" => d_rx::run(&args),
+    "embed" => d_embed::run(&args),
     x => {
       eprintln!("unknown sub {}", x);
       std::process::exit(2);
